@@ -224,6 +224,42 @@ def table_formal(ff, residues, neutral=False):
     return r
 
 
+INPUT_NAMES = {  # residue name as spelled in the input -> (template, formal side-chain charge)
+    "HIP": ("HIS", 1), "HSP": ("HIS", 1), "HID": ("HIS", 0), "HIE": ("HIS", 0), "HSD": ("HIS", 0), "HSE": ("HIS", 0),
+    "ASH": ("ASP", 0), "GLH": ("GLU", 0), "LYN": ("LYS", 0), "CYM": ("CYS", -1), "TYM": ("TYR", -1), "AR0": ("ARG", 0),
+}
+
+
+def table_input_names(ff, names):
+    """a residue that the INPUT already names by a protonation variant (HSP, HID, ASH, LYN ...) carries that variant's
+    formal charge at every chain position (when the force field parameterises it fully there)"""
+    from pdb2pqr import main
+
+    rows, violations, samples = 0, [], []
+    for nm in names:
+        base, formal = INPUT_NAMES[nm]
+        for pos in range(3):
+            seq = ["ALA", "ALA", "ALA"]
+            seq[pos] = base
+            lines = [(ln[:17] + nm + ln[20:]) if ln.startswith("ATOM") and int(ln[22:26]) == pos + 1 else ln for ln in fixtures.peptide_lines(seq)]
+            rows += 1
+            case = {"ff": ff, "input_name": nm, "position": ["N-terminal", "internal", "C-terminal"][pos]}
+            try:
+                bm, defn = fixtures.prepared(lines)
+                r = main.non_trivial(fixtures.Args(ff=ff, pka_method=None, debump=True, opt=True), bm, None, defn, False)
+            except (ValueError, KeyError):
+                continue  # loud (e.g. the force field has no such state at that position): C12's subject
+            x = bm.residues[pos]
+            if any(a.residue is x for a in r["missed_residues"]):
+                continue  # reported as unassigned: not "fully parameterised"
+            want = formal + (1 if pos == 0 else 0) + (-1 if pos == 2 else 0)
+            if abs(x.charge - want) > 1e-3:
+                violations.append({"label": "input-named-variant-has-its-formal-charge", "values": case, "reproduced": True, "replay_detail": f"residue named {nm} in the input ends as {x.ffname} with charge {x.charge:+.3f}, formal charge of that variant there is {want:+d}"})
+            if len(samples) < 2:
+                samples.append({**case, "ffname": str(x.ffname), "charge": x.charge})
+    return {"table_rows": rows, "distinct": rows, "violations": violations, "samples": samples}
+
+
 def table_strands(ff, kind, lengths):
     """nucleic-acid strands with free 5'/3' ends carry -1 per phosphate (the 5' phosphate is not
     modelled: n-1 phosphates), termini flagged on exactly the two ends, everything parameterised"""
@@ -285,6 +321,8 @@ def obligations(tier):
     for kind, ffs in NA_FFS.items():
         for ff in ffs:
             obs.append(Obligation(f"strands-{kind}-{ff}", table_strands, dict(ff=ff, kind=kind, lengths=[2, 3] if tier == "quick" else [2, 3, 4, 5]), kind="table", group="strands"))
+    for ff in ("amber", "parse", "charmm") if tier == "quick" else ("amber", "charmm", "parse", "peoepb", "swanson", "tyl06"):
+        obs.append(Obligation(f"input-names-{ff}", table_input_names, dict(ff=ff, names=list(INPUT_NAMES)), kind="table", group="formal"))
     obs.append(Obligation("formal-parse-neutral-termini", table_formal, dict(ff="parse", residues=list(c01.STATES) if tier == "thorough" else ["ASP", "CYS", "ALA", "PRO"], neutral=True), kind="table", group="formal"))
     return obs
 
